@@ -519,8 +519,8 @@ func expandRequestData(testCase *conformancev1.TestCase) error {
 				// it's the right size
 				break
 			}
-			if adjustCount >= 2 {
-				// Oof. If we have to adjust it more than 2x, then we're at a weird boundary
+			if adjustCount >= 3 {
+				// Oof. If we have to adjust it more than 3x, then we're at a weird boundary
 				// condition that can't easily be expanded to the exact size. This is highly
 				// unlikely, but can happen if adding the one byte of padding causes the data
 				// length to suddenly require one more byte to encode as a varint. In that
